@@ -1,9 +1,11 @@
 //! `mc <ID> quick|thorough` runs the check of one property; `mc <ID> --replay <file>`
 //! re-executes one recorded case without any explorer.
 
+mod c03;
 mod c04;
 mod c07;
 mod c08;
+mod c13;
 mod c16;
 
 use simcore::report::{install_quiet_panic_hook, Tier};
@@ -29,7 +31,9 @@ fn main() {
             r = &r["case"];
         }
         match id {
+            "C03" => c03::replay(r),
             "C04" => c04::replay(r),
+            "C13" => c13::replay(r),
             "C07" => c07::replay(r),
             "C08" => c08::replay(r),
             "C16" => c16::replay(r),
@@ -42,7 +46,9 @@ fn main() {
     }
     let tier = Tier::from_args(Some(args[2].as_str()));
     let code = match id {
+        "C03" => c03::run(tier),
         "C04" => c04::run(tier),
+        "C13" => c13::run(tier),
         "C07" => c07::run(tier),
         "C08" => c08::run(tier),
         "C16" => c16::run(tier),
